@@ -789,7 +789,7 @@ func handleZRANK(params internal.HandlerFuncParams) ([]byte, error) {
 	member := params.Command[2]
 	withscores := false
 
-	if len(params.Command) == 4 && strings.EqualFold(params.Command[3], "withscores") {
+	if len(params.Command) == 4 && (strings.EqualFold(params.Command[3], "withscores") || strings.EqualFold(params.Command[3], "withscore")) {
 		withscores = true
 	}
 
